@@ -1696,6 +1696,24 @@ pub fn grid_scenarios() -> Vec<BScenario> {
                     // two connections, the second one killed
                     out.push(mk(b, max_size, lifo, vec![g, g, BOp::Interact { h: 1, kind: *k, cancellable: false }, BOp::Return { h: 1 }, BOp::Return { h: 0 }, g, g], vec![], vec![], vec![]));
                 }
+                if max_size == 2 {
+                    // a whole pool of four dies, comes back and is asked for again (a run of
+                    // consecutive failures, then still more dead connections)
+                    for k in &kinds {
+                        if *k == IKind::Ok || *k == IKind::TestTx {
+                            continue;
+                        }
+                        let mut ops = vec![g, g, g, g];
+                        for h in 0..4u8 {
+                            ops.push(BOp::Interact { h, kind: *k, cancellable: false });
+                        }
+                        for _ in 0..4 {
+                            ops.push(BOp::Return { h: 0 });
+                        }
+                        ops.extend([g, g, g, g]);
+                        out.push(mk(b, 4, lifo, ops, vec![], vec![], vec![]));
+                    }
+                }
                 if matches!(b, Backend::R2d2 | Backend::Diesel { method: DMethod::CustomFunction }) {
                     out.push(mk(b, max_size, lifo, vec![g, BOp::Return { h: 0 }, g, BOp::Return { h: 0 }, g], vec![0], vec![], vec![]));
                     out.push(mk(b, max_size, lifo, vec![g, BOp::Return { h: 0 }, g, BOp::Return { h: 0 }, g], vec![1], vec![], vec![]));
